@@ -106,19 +106,33 @@ class CodeGenerator:
                         for byte in part:
                             output_stream.emit(DByte(byte))
                     elif isinstance(part, tuple) and part[0] is ir.ptr:
-                        # Emit reference to a label:
+                        # Emit reference to a label, (ptr, name) or
+                        # (ptr, name, offset in bytes):
                         assert isinstance(part[1], str)
+                        offset = part[2] if len(part) > 2 else 0
                         labels_refs = {
-                            (2, Endianness.LITTLE): data_instructions.Dw2,
-                            (4, Endianness.LITTLE): data_instructions.Dcd2,
-                            (8, Endianness.LITTLE): data_instructions.Dq2,
+                            (2, Endianness.LITTLE): (
+                                data_instructions.Dw2,
+                                data_instructions.Dw3,
+                            ),
+                            (4, Endianness.LITTLE): (
+                                data_instructions.Dcd2,
+                                data_instructions.Dcd3,
+                            ),
+                            (8, Endianness.LITTLE): (
+                                data_instructions.Dq2,
+                                data_instructions.Dq3,
+                            ),
                         }
                         key = (
                             self.arch.info.get_size(part[0]),
                             self.arch.info.endianness,
                         )
-                        op_cls = labels_refs[key]
-                        output_stream.emit(op_cls(part[1]))
+                        op_cls, offset_op_cls = labels_refs[key]
+                        if offset:
+                            output_stream.emit(offset_op_cls(part[1], offset))
+                        else:
+                            output_stream.emit(op_cls(part[1]))
                     else:
                         raise NotImplementedError(str(part))
             else:
